@@ -68,6 +68,20 @@ func (e *Engine) intrinsic(st *State, fn *ssa.Function, args []Value, ci ssa.Val
 				st.outcome = "assume-false"
 				return true
 			}
+			if !c.IsTrue() && !e.noAbs {
+				switch st.implied(c) {
+				case triTrue:
+					c = Bool(true)
+				case triFalse:
+					if e.audit {
+						if a := e.solver.Check(st.pc, c); a == "sat" {
+							panic("ABSINT UNSOUND in vAssume")
+						}
+					}
+					st.outcome = "assume-false"
+					return true
+				}
+			}
 			if !c.IsTrue() {
 				if len(st.forced) == 0 {
 					if r := e.solver.Check(st.pc, c); r == "unsat" {
